@@ -435,6 +435,9 @@ func (f *File) Name() string { return f.name }
 
 //go:norace
 func (f *File) Write(b []byte) (int, error) {
+	if f == nil {
+		return 0, os.ErrInvalid // as (*os.File)(nil).Write
+	}
 	ev, fault, err := S.FS.op("write", f.name, true)
 	if err != nil {
 		return 0, err
@@ -472,24 +475,50 @@ func (f *File) WriteString(s string) (int, error) { return f.Write([]byte(s)) }
 
 //go:norace
 func (f *File) Read(b []byte) (int, error) {
+	if f == nil {
+		return 0, os.ErrInvalid
+	}
 	// reads of an open file are not scheduling points (content-addressed, immutable once renamed)
 	return f.f.Read(b)
 }
 
 //go:norace
-func (f *File) ReadAt(b []byte, off int64) (int, error) { return f.f.ReadAt(b, off) }
+func (f *File) ReadAt(b []byte, off int64) (int, error) {
+	if f == nil {
+		return 0, os.ErrInvalid
+	}
+	return f.f.ReadAt(b, off)
+}
 
 //go:norace
-func (f *File) Seek(off int64, whence int) (int64, error) { return f.f.Seek(off, whence) }
+func (f *File) Seek(off int64, whence int) (int64, error) {
+	if f == nil {
+		return 0, os.ErrInvalid
+	}
+	return f.f.Seek(off, whence)
+}
 
 //go:norace
-func (f *File) Stat() (os.FileInfo, error) { return f.f.Stat() }
+func (f *File) Stat() (os.FileInfo, error) {
+	if f == nil {
+		return nil, os.ErrInvalid
+	}
+	return f.f.Stat()
+}
 
 //go:norace
-func (f *File) Sync() error { return f.f.Sync() }
+func (f *File) Sync() error {
+	if f == nil {
+		return os.ErrInvalid
+	}
+	return f.f.Sync()
+}
 
 //go:norace
 func (f *File) Truncate(n int64) error {
+	if f == nil {
+		return os.ErrInvalid
+	}
 	ev, _, err := S.FS.op("truncate", f.name, true)
 	if err != nil {
 		return err
@@ -501,6 +530,9 @@ func (f *File) Truncate(n int64) error {
 
 //go:norace
 func (f *File) Close() error {
+	if f == nil {
+		return os.ErrInvalid // as (*os.File)(nil).Close
+	}
 	if S.cur == nil {
 		return f.f.Close()
 	}
